@@ -1639,3 +1639,58 @@ func c16AuthRepliesAreSMTPErrors(c *Check, rule string) {
 		c.Fail(rule, "Session.Auth:returns", r.FI.Decl.Pos(), "undecided: Auth returns no server")
 	}
 }
+
+// c16AuthzTemporaryKept: authorize_sender's header stage asks the same decision function as the MAIL FROM stage and,
+// when the From address is not authorised, tries the Sender address before it refuses with the constant
+// `553 5.7.0 Unauthorized use of sender address`. The decision function also reports a failed table lookup
+// (`454 4.7.0 Internal error during policy check`). That verdict must not be replaced by the constant: a temporary
+// failure would be answered with 5yz, and the wrong action directive applied.
+func c16AuthzTemporaryKept(c *Check, rule string) {
+	c.Rule(rule, "check.authorize_sender, header stage: a verdict of the decision function is replaced by the constant 'unauthorized' reply only behind a test that it is not a temporary one (a failed table lookup stays `454 4.7.0`, it does not become `553 5.7.0`)", 1)
+	r := c.need(rule, "internal/check/authorize_sender", "state", "CheckBody")
+	if r == nil {
+		return
+	}
+	info := r.Info
+	n := 0
+	for _, pt := range r.F.Points() {
+		as, ok := pt.Node().(*ast.AssignStmt)
+		if !ok || len(as.Lhs) != 1 || len(as.Rhs) != 1 {
+			continue
+		}
+		call, ok := ast.Unparen(as.Rhs[0]).(*ast.CallExpr)
+		if !ok || methodName(call) != "authzSender" {
+			continue
+		}
+		res := objOf(info, as.Lhs[0])
+		if res == nil {
+			continue
+		}
+		n++
+		// returns that do not hand the verdict on
+		other := func(q Pt) bool {
+			ret, ok := q.Node().(*ast.ReturnStmt)
+			if !ok || len(ret.Results) != 1 {
+				return false
+			}
+			return !mentions(info, ret.Results[0], res)
+		}
+		redef := func(q Pt) bool { return q != pt && q.Node() != nil && assignsObj(info, q.Node(), res) }
+		notTemp := r.F.AvoidImplying(func(atom ast.Expr) (bool, bool) {
+			call, ok := ast.Unparen(atom).(*ast.CallExpr)
+			if !ok || !isCall(info, call, "~/framework/exterrors.IsTemporary", "~/framework/exterrors.IsTemporaryOrUnspec") || len(call.Args) != 1 {
+				return false, false
+			}
+			if !mentions(info, call.Args[0], res) {
+				return false, false
+			}
+			// take away the edge on which the verdict is known not to be temporary
+			return false, true
+		})
+		path, f := r.F.Reach(Query{From: []Pt{pt}, Target: other, Avoid: redef, AvoidEdge: notTemp, NoCorr: true})
+		c.Hold(rule, "CheckBody:verdict"+itoa(n), as.Pos(), !f, "the verdict of the decision function can be dropped in favour of the constant `553 5.7.0 Unauthorized use of sender address` without a test that it is not temporary: when the user_to_email / prepare_email table cannot be read (454 4.7.0 at MAIL FROM) the header stage answers 553 – a temporary failure with a permanent class, under the no_match action instead of the err action: "+r.F.Describe(path))
+	}
+	if n == 0 {
+		c.Fail(rule, "CheckBody:decision", r.FI.Decl.Pos(), "undecided: the header stage does not call the decision function authzSender")
+	}
+}
